@@ -58,7 +58,7 @@ impl Doc {
         let t = if self.upper { tag.to_uppercase() } else { tag.to_string() };
         if self.attrs {
             match level % 3 {
-                0 => format!("<{t} lang=\"en\">"),
+                0 => format!("<{t} lang=\"en\" data-if=\"a>b\" data-q='x>y'>"),
                 1 => format!("<{t} id='i{level}' data-x=1>"),
                 _ => format!("<{t} class=\"c d\" hidden>"),
             }
@@ -118,6 +118,9 @@ pub struct Filt {
     pub action: String,
     pub selector: Sel,
     pub value: String,
+    /// the API filter's inner_value differs from value (it must not reach the document)
+    #[serde(default)]
+    pub distinct_inner: bool,
 }
 
 impl Filt {
@@ -129,7 +132,13 @@ impl Filt {
             Sel::Nothing => Some("span.nomatch"),
             Sel::Empty => Some(""),
         };
-        FilterSpec::html(&self.action, &p, sel, &self.value)
+        let mut spec = FilterSpec::html(&self.action, &p, sel, &self.value);
+        if self.distinct_inner {
+            if let FilterSpec::Html { inner, .. } = &mut spec {
+                *inner = Some("INNER-ONLY".to_string());
+            }
+        }
+        spec
     }
 }
 
@@ -253,7 +262,7 @@ pub fn filters() -> Vec<Filt> {
     for action in ["append_child", "prepend_child", "replace"] {
         for selector in [Sel::None, Sel::PK, Sel::Nothing, Sel::Empty] {
             for value in [V1, V2] {
-                v.push(Filt { action: action.to_string(), selector: selector.clone(), value: value.to_string() });
+                v.push(Filt { action: action.to_string(), selector: selector.clone(), value: value.to_string(), distinct_inner: value == V2 });
             }
         }
     }
